@@ -36,6 +36,7 @@ type Exec struct {
 	counters  []*TrackClause
 	unsupported []string
 	inSpec bool
+	freshStore bool
 	assumeNil bool
 	inlinedInLoop bool
 	specErrors []string
@@ -576,7 +577,7 @@ func (x *Exec) loopWrites(fr *Frame, li *loopInfo) (cells map[*ssa.Alloc]bool, k
 		for _, in := range b.Instrs {
 			switch in := in.(type) {
 			case *ssa.Store:
-				x.eng.storeTarget(in.Addr, cells, keys)
+				x.eng.storeTargetLoop(in.Addr, cells, keys)
 			case *ssa.MapUpdate:
 				for k, s := range x.eng.mapKeys(in.Map.Type()) {
 					keys[k] = s
@@ -866,10 +867,14 @@ func (x *Exec) loadField(st *State, obj Term, stt *types.Struct, skey string, i 
 		s2, k2 := structOf(ft)
 		return x.loadStruct(st, x.subRef(obj, skey, stt, i), s2, k2)
 	case KIface:
-		return VIface{Select(x.heapGet(st, key+"#t", arrOf(SInt)), obj), Select(x.heapGet(st, key+"#v", arrOf(SInt)), obj)}
+		tag := Select(x.heapGet(st, key+"#t", arrOf(SInt)), obj)
+		x.fact("tag:"+tag.S, Ge(tag, IntLit(0)))
+		return VIface{tag, Select(x.heapGet(st, key+"#v", arrOf(SInt)), obj)}
 	case KSlice:
-		return VSlice{Backing{Heap: true, Ref: Select(x.heapGet(st, key+"#b", arrOf(SInt)), obj)},
+		sv := VSlice{Backing{Heap: true, Ref: Select(x.heapGet(st, key+"#b", arrOf(SInt)), obj)},
 			Select(x.heapGet(st, key+"#o", arrOf(SInt)), obj), Select(x.heapGet(st, key+"#l", arrOf(SInt)), obj), Select(x.heapGet(st, key+"#c", arrOf(SInt)), obj)}
+		x.fact("slice:"+sv.Len.S, And(Ge(sv.Off, IntLit(0)), Ge(sv.Len, IntLit(0)), Le(sv.Len, sv.Cap), Le(sv.Cap, BigLit(pow2(48)))))
+		return sv
 	case KAddr:
 		return VAddr{Kind: AOpaque, Opaque: Select(x.heapGet(st, key, arrOf(SInt)), obj), ElemT: ft.Underlying().(*types.Pointer).Elem()}
 	default:
@@ -878,11 +883,34 @@ func (x *Exec) loadField(st *State, obj Term, stt *types.Struct, skey string, i 
 		if s == SStr {
 			x.vc.strFacts(t)
 		}
+		if kindOf(ft) == KInt {
+			x.fact("rng:"+t.S, x.rangeFact(t, ft))
+		}
 		return VTerm{t}
 	}
 }
 
+// fact asserts a type-level fact about a term once.
+func (x *Exec) fact(key string, f Term) {
+	if x.vc.declared[key] || strings.Contains(key, "!q") {
+		return
+	}
+	x.vc.declared[key] = true
+	x.vc.Assert(f)
+}
+
+func isFreshRef(obj Term) bool {
+	if l, ok := obj.Lit(); ok && l.Sign() < 0 {
+		return true
+	}
+	return strings.HasPrefix(obj.S, "new!")
+}
+
 func (x *Exec) storeField(st *State, obj Term, stt *types.Struct, skey string, i int, v Value) {
+	if isFreshRef(obj) && !x.freshStore {
+		x.freshStore = true
+		defer func() { x.freshStore = false }()
+	}
 	ft := stt.Field(i).Type()
 	key := fieldKey(skey, stt, i)
 	switch kindOf(ft) {
@@ -1168,7 +1196,7 @@ func (x *Exec) nilCheck(fr *Frame, st *State, ref Term, pos token.Pos) {
 	if l, ok := ref.Lit(); ok && l.Sign() != 0 {
 		return
 	}
-	if strings.HasPrefix(ref.S, "(sub|") || strings.HasPrefix(ref.S, "(|sub|") || strings.HasPrefix(ref.S, "(elemref") {
+	if strings.HasPrefix(ref.S, "(sub!") || strings.HasPrefix(ref.S, "(|sub!") || strings.HasPrefix(ref.S, "(elemref") {
 		return
 	}
 	key := fr.prefix + ref.S
